@@ -147,6 +147,11 @@ func c14Pay(c *fw.Ctx, i int) {
 		}
 		for k := 0; k < n; k++ {
 			units = append(units, c14Unit(r, c14Size(r, mtu)))
+			if r.Chance(1, 12) {
+				// the same unit again (encoders repeat parameter sets and SEI): byte-identical neighbours are two units
+				units = append(units, append([]byte(nil), units[len(units)-1]...))
+				c.Count("byte_identical_neighbour_units", 1)
+			}
 		}
 		if mtu >= 16 && r.Chance(1, 3) {
 			// small units whose aggregation packet (2 + sum(2 + len) [+ 2 + (k-1) with DONL]) lands on MTU-2 .. MTU+2,
